@@ -231,14 +231,14 @@ def obligations(tier):
     # 'by any angle': the same for angles one or two whole turns away from the principal value (|theta| up to 5 pi).  The
     # original code only takes sin and cos of the angle; code that looks at the angle itself (theta < 0, theta > pi) is
     # decided through the SAngle comparisons.
-    for k in ((1, -1) if tier == 'quick' else (1, -1, 2, -2)):
+    for k in (1, -1, 2, -2):
         obs.append(Obligation('O0-elementary-matrices[%+d turns]' % k, mk_matrices(k), code=code[1:],
                               bounds='angle = principal value %+d whole turns, vector in [-10,10]^3' % k, claim_doc='as O0'))
         for zero in 'xyz':
             obs.append(Obligation('O1-axis-%s-zero[%+d turns]' % (zero, k), mk_plane(zero, k), code=code,
                                   bounds='as O1-axis-%s-zero with the angle %+d whole turns away from its principal value' % (zero, k),
                                   claim_doc='as O1', query_timeout_ms=30000, wall_s=200))
-        for a in generic_axes(tier)[::5 if tier == 'quick' else 3]:
+        for a in (generic_axes(tier)[::5 if tier == 'quick' else 3] if (tier != 'quick' or abs(k) == 1) else generic_axes(tier)[:1]):
             obs.append(Obligation('O2-axis(%d,%d,%d)[%+d turns]' % (a + (k,)), mk_generic(a, k), code=code,
                                   bounds='concrete generic axis %r; angle %+d whole turns away from its principal value' % (a, k),
                                   claim_doc='Rodrigues, per coordinate', query_timeout_ms=60000, wall_s=240))
